@@ -11,3 +11,14 @@ for d in seeded/harmless/H*-*; do
   checks=$(python3 -c "import json;m=json.load(open('$d/meta.json'));print(','.join(sorted(set([m['property']]+list(m.get('first_result',{}).keys())))))")
   echo "$out/$id 1 --checks=$checks"
 done | xargs -P $jobs -L 1 python3 tools/eval_harmless.py
+# record what the checks say NOW in every meta.json (first_result stays as it was)
+python3 - <<'PY'
+import json,glob,os
+for d in sorted(glob.glob('seeded/harmless/H*-*')):
+    rf='/tmp/mut_out/reharm/%s/hresult_1.json'%os.path.basename(d)
+    if not os.path.exists(rf): continue
+    r=json.load(open(rf)); m=json.load(open(d+'/meta.json'))
+    m['current_result']={c:('alarm' if v['rc'] else 'quiet') for c,v in r.get('checks',{}).items()}
+    m['still_equivalent']=r.get('equivalent')
+    json.dump(m,open(d+'/meta.json','w'),indent=1)
+PY
